@@ -38,6 +38,32 @@ Theorem c01_roundtrip_v2 : forall enc dec zip unzip, codec_env enc dec zip unzip
 Proof. exact roundtrip_v2_fields. Qed.
 Print Assumptions c01_roundtrip_v2.
 
+(* the same for ANY caller flag byte: marshalling bits found on the packet (left by an earlier
+   encode of the same object through another codec / threshold / cipher, or set by the caller)
+   are dropped by the encoder; the packet comes back as its normal form
+   [normalize p] = p with flag bits 0x01/0x02 cleared *)
+Theorem c01_roundtrip_any_flags_v1 : forall enc dec zip unzip, codec_env enc dec zip unzip ->
+  forall thr has_c p n ws p' s rest,
+  wf_packet p -> body_ok p ->
+  write_v1 enc zip thr has_c p = mkWres (Some n) ws p' ->
+  concat s = concat ws ++ rest ->
+  exists q, r_out (read_packet_v1 dec unzip has_c s packet0) = Ok q
+            /\ concat (r_rest (read_packet_v1 dec unzip has_c s packet0)) = rest
+            /\ same_v1 (normalize p) q.
+Proof. exact roundtrip_v1_any. Qed.
+Print Assumptions c01_roundtrip_any_flags_v1.
+
+Theorem c01_roundtrip_any_flags_v2 : forall enc dec zip unzip, codec_env enc dec zip unzip ->
+  forall thr has_c p n ws p' s rest,
+  wf_packet p -> body_ok p ->
+  write_v2 enc zip thr has_c p = mkWres (Some n) ws p' ->
+  concat s = concat ws ++ rest ->
+  exists q, r_out (read_packet_v2 dec unzip has_c s packet0) = Ok q
+            /\ concat (r_rest (read_packet_v2 dec unzip has_c s packet0)) = rest
+            /\ same_v2 (normalize p) q.
+Proof. exact roundtrip_v2_any. Qed.
+Print Assumptions c01_roundtrip_any_flags_v2.
+
 (* "so back-to-back frames on one stream decode independently and in order" *)
 Theorem c01_stream_v1 : forall enc dec zip unzip, codec_env enc dec zip unzip ->
   forall thr has_c ps frames,
